@@ -45,7 +45,7 @@ def check_pairs(m1, m2, d12, sep, rad, maxmatch):
     if (t > r1 + EDGE).any():
         k = int(np.flatnonzero(t > r1 + EDGE)[0])
         return "extra pair (%d, %d): true separation %.12g > radius %.12g" % (m1[k], m2[k], t[k], r1[k])
-    if (np.abs(d12 - t) > 1e-9).any():
+    if not (np.abs(d12 - t) <= 1e-9).all():
         k = int(np.argmax(np.abs(d12 - t)))
         return "pair (%d, %d): reported separation %.12g, true %.12g" % (m1[k], m2[k], d12[k], t[k])
     same = np.diff(m1) == 0
@@ -100,7 +100,7 @@ def match_statement(ra1, dec1, ra2, dec2, radius, depth, maxmatch):
                 return "file mode: count %r, %d rows read, memory mode %d pairs" % (cnt, data.size, a[0].size)
             if not (np.array_equal(data["i1"], a[0]) and np.array_equal(data["i2"], a[1])):
                 return "file mode: different pairs from the in-memory call"
-            if (np.abs(data["d12"] - a[2]) > 1e-12 * np.maximum(1, np.abs(a[2]))).any():
+            if not (np.abs(data["d12"] - a[2]) <= 1e-12 * np.maximum(1, np.abs(a[2]))).all():
                 return "file mode: separations differ from the in-memory call"
     finally:
         if os.path.exists(fn):
